@@ -13,12 +13,12 @@ func init() {
 	register(&Profile{
 		Name:     "C06",
 		Property: "C06",
-		Gen:      genC06,
+		Gen:      func(g *Gen) *Plan { return swarm(g, genC06(g), 0.2, 0) },
 		Oracles:  []func(o *Outcome) []Violation{respOracle("C06", "wrong-key", "wrong-body", "unattributable-response"), livenessOracle("C06")},
 		NonTrivial: func(o *Outcome) bool {
 			return o.Hist.Probes["evictions"] > 0 && o.Hist.Probes["hits-checked"] > 0
 		},
-		Rule:         "seeded key sets built to be confusable (same path on two hosts, queries differing in one byte, prefix/suffix pairs, GET vs HEAD of one URL), forced into one or two shards in most runs, per-shard LRU limit 1-3 so entries are continually evicted and re-created, 20-45 requests of mixed concurrency with expiry; oracle: the self-identifying origin reply inside every response names exactly the requesting client's (method, Host, request-URI). very long URLs (~800 bytes) that differ only at their far end join the key sets, the cache is persisted in a third of the plans, the origin answers in any documented encoding. non-trivial = at least one eviction and one cache hit occurred; distinct = distinct history hash",
+		Rule:         "seeded key sets built to be confusable (same path on two hosts, queries differing in one byte, prefix/suffix pairs, GET vs HEAD of one URL), forced into one or two shards in most runs, per-shard LRU limit 1-3 so entries are continually evicted and re-created, 20-45 requests of mixed concurrency with expiry; oracle: the self-identifying origin reply inside every response names exactly the requesting client's (method, Host, request-URI). very long URLs (~800 bytes) that differ only at their far end join the key sets, the cache is persisted in a third of the plans, the origin answers in any documented encoding. in a fifth of the plans a tenth of the clients disconnect at a scheduler-chosen step (fault client-disconnect). non-trivial = at least one eviction and one cache hit occurred; distinct = distinct history hash",
 		ExpectProbes: []string{"evictions", "hits-checked", "head-and-get-same-url", "same-path-two-hosts"},
 	})
 	register(&Profile{
